@@ -3152,7 +3152,7 @@ theorem ofx_validate (hcv : ConvOK cv Ptext) {tbl : List (String × Shape)} {ci 
       rcases this with h | h | h | h | h | h | h <;> exact absurd h (by decide)
   have hcount : mutexCount (rawKwOf S cv esc fields c.spec)
       ["signonmsgsrqv1".toList, "signonmsgsrsv1".toList] = 1 := by
-    simp only [mutexCount, List.filter, hq', hrs, notNone, List.length]
+    simp only [mutexCount, List.filter, hq', hrs, given, List.length]
   simp only [validateArgs, hx.1, hx.2.1, hx.2.2, extraRule, hall, enforceCount, bind, Except.bind, if_true,
     List.all_nil, List.all_cons, hcount, decide_true, Bool.and_self]
 
